@@ -63,6 +63,9 @@ def model_line(c, K, cvs):
             p += [hx(v["sigma"]), hx(v["w"]), hx(v["lower"]), hx(v["upper"]), str(v["nx"]), "1" if v.get("expand") else "0"]
         p += [hx(M["W"]), hx(M["hw"]), str(M["freq"]), str(M["gfreq"]), "1" if M["use_grids"] else "0",
               "1" if M["keep"] else "0", "1" if M["wt"] else "0", hx(M["bt"]), hx(0.001987191)]
+        eb = M.get("eb")
+        p += ["1" if eb else "0", str(eb["equil"] if eb else 0), str(len(eb["target"]) if eb else 0)]
+        p += [hx(x) for x in (eb["target"] if eb else [])]
         p += [str(c["it0"]), str(T), str(K)]
         for t in range(T):
             p += [hx(x) for x in cvs[t]]
